@@ -207,9 +207,9 @@ class OperatorMapper:
         operator_name = operation.__name__
         is_negated = operator_name == "not_contains"
 
-        if isinstance(left, (list, tuple, set)):
+        if isinstance(left, (list, tuple, set, frozenset)):
             expression = right.in_(left)
-        elif isinstance(right, (list, tuple, set)):
+        elif isinstance(right, (list, tuple, set, frozenset)):
             expression = left.in_(right)
         elif isinstance(left, str) and not isinstance(right, str):
             expression = func.instr(literal(left), right) > 0
@@ -723,8 +723,8 @@ class EQLTranslator:
             if not isinstance(values, list):
                 values = [values]
 
-            if len(values) == 1 and isinstance(values[0], (list, tuple)):
-                values = values[0]
+            if len(values) == 1 and isinstance(values[0], (list, tuple, set, frozenset)):
+                values = list(values[0])
 
             if len(values) != 1 or (values and not isinstance(values[0], str)):
                 column = self.translate_attribute(query.right)
